@@ -119,7 +119,7 @@ func (t *HashTrie) AddWord(word string) {
 func (t *HashTrie) getTailCharNode(word []rune) *trieNode {
 	var node = &t.root
 	for _, ch := range word {
-		child := node.contains(ch)
+		child := node.children[ch] // 单词表里的单词按字面查找，不使用通配符
 		if child == nil {
 			return nil
 		}
